@@ -32,6 +32,7 @@ class Slice:
     select: Optional[Callable[[Dict[str, Any]], bool]] = None
     env: Dict[str, str] = field(default_factory=dict)
     env_of: Optional[Callable[[Dict[str, Any]], Dict[str, str]]] = None   # per-vector process environment
+    prepare: Optional[Callable[[str, int], Dict[str, str]]] = None        # (tier, seed) -> extra environment for TLC
 
 
 @dataclass
@@ -139,8 +140,21 @@ def model_check(run: Run, sl: Slice, workers: int):
     tier = run.tier
     cfg = sl.cfg.get(tier) or sl.cfg["quick"]
     sim = sl.simulate.get(tier)
-    return tlc.run_tlc(sl.module, cfg, workers=workers, simulate=sim, depth=sl.depth,
-                       seed=run.seed if sim else None, env=sl.env)
+    env = dict(sl.env)
+    tmpfiles: List[str] = []
+    if sl.prepare:
+        extra = sl.prepare(tier, run.seed)
+        tmpfiles = [v for k, v in extra.items() if k.endswith("_FILE") or k.startswith("VF_")]
+        env.update(extra)
+    try:
+        return tlc.run_tlc(sl.module, cfg, workers=workers, simulate=sim, depth=sl.depth,
+                           seed=run.seed if sim else None, env=env)
+    finally:
+        for f in tmpfiles:
+            try:
+                os.unlink(f)
+            except OSError:
+                pass
 
 
 def run_slice(run: Run, sl: Slice, res) -> None:
